@@ -61,19 +61,21 @@ Example D7_known_refuted : let s := run_doc "xhtml" 0 ".Im i.png cap
 Proof. vm_compute. split; reflexivity. Qed.
 
 (* proved for every document of a sub-language, every world and every positive nesting fuel: text lines, .Bm, .Em and .Sm
-   (any arguments), .P with or without a title (inline macros in the title included), and display blocks .Bd/.Ed nested
-   to any depth, XHTML fragment mode.  The output
-   is read by the tag machine of Proofs/Tok.v: it ends in character data with no element left open, and no closing tag
-   ever mismatched (the machine would be stuck in Bad); the block stack and the inline scopes are closed at end of file;
-   unclosed, mismatched or stray .Ed/.Em lines are reported by the model and the output still balances. *)
-Require Tok Inv FragB.
+   (any arguments), .P with or without a title (inline macros in the title included), display blocks .Bd/.Ed nested
+   to any depth, and headers .Ch/.Pt/.Sh/.Ss with any arguments (numbered or not, with inline macros in the title),
+   XHTML fragment mode.  The output is read by the tag machine of Proofs/Tok.v: it ends in character data with no
+   element left open, and no closing tag ever mismatched (the machine would be stuck in Bad); the block stack and the
+   inline scopes are closed at end of file and before each header; unclosed, mismatched or stray .Ed/.Em lines are
+   reported by the model and the output still balances.  The two passes agree: the k-th header of pass 2 finds the
+   entry pass 1 recorded for it (Proofs/FragH.v). *)
+Require Tok Inv FragB FragH.
 
-Theorem C02_blocks_balanced_partial : forall fuel wd main bs, Forall FragB.in_frag bs ->
+Theorem C02_headers_balanced_partial : forall fuel wd main bs, Forall FragH.in_fragH bs ->
   let s := snd (compile (S fuel) (R "xhtml") 0 wd main bs) in
   panicked s = None /\
   Tok.run (flat (wout s)) (Tok.Txt, []) = (Tok.Txt, []) /\ In (curfile s, flat (wout s)) (files s).
-Proof. exact FragB.C02_blocks_balanced. Qed.
-Print Assumptions C02_blocks_balanced_partial.
+Proof. exact FragH.C02_headers_balanced. Qed.
+Print Assumptions C02_headers_balanced_partial.
 (* the per-handler steps of the open-element invariant that the lifting uses, for any state (also inside lists etc.) *)
 Theorem C02_text_keeps_invariant : forall s, Inv.Inv s -> Inv.markup_ok (mtags s) -> process s = true -> asis s = false ->
   (par s = false -> verse s = false) -> Inv.Inv (Proc2.process_text s).
